@@ -416,6 +416,7 @@ func c18r2(p *Program, r *Report) {
 	// the length is patched after the body has its final form, with the number of bytes after the header
 	g := p.GraphOf(fi)
 	info := g.Info
+	lp := p.lengthPatch()
 	mk := func(g2 *Graph) Classifier {
 		i2 := g2.Info
 		return func(st Step) []string {
@@ -423,10 +424,11 @@ func c18r2(p *Program, r *Report) {
 				return nil
 			}
 			var evs []string
+			if lp.isSiteNode(p, i2, st.Node) {
+				evs = append(evs, "setLength")
+			}
 			for _, c := range callsIn(st.Node) {
 				switch calleeName(i2, c) {
-				case "(*framer).setLength":
-					evs = append(evs, "setLength")
 				case "Compressor.Encode":
 					evs = append(evs, "encode")
 				}
@@ -449,13 +451,10 @@ func c18r2(p *Program, r *Report) {
 	}
 	nlen := 0
 	for _, fn := range append([]*FuncInfo{fi}, p.privateCallees(fi)...) {
-		for _, c := range callsIn(fn.Decl.Body) {
-			if !isCallTo(fn.Pkg.TypesInfo, c, "(*framer).setLength") || len(c.Args) != 1 {
-				continue
-			}
+		for _, site := range lp.sites(p, fn) {
 			nlen++
-			got := p.canonText(fn, c.Args[0])
-			r.Check(got == "len(f.buf)-f.headSize", c, fn.Name+" length = bytes after the header", "len(f.buf) - f.headSize", "the patched length is "+got+", not the number of bytes after the header")
+			got := p.canonText(fn, site.Arg)
+			r.Check(got == "len(f.buf)-f.headSize", site.Node, fn.Name+" length = bytes after the header", "len(f.buf) - f.headSize", "the patched length is "+got+", not the number of bytes after the header")
 		}
 	}
 	if nlen == 0 {
@@ -590,6 +589,110 @@ func c18r3(p *Program, r *Report) {
 	_ = types.Typ
 }
 
+// lenPatch describes where the frame length is stored into the header: the function holding the four byte stores
+// `x.buf[i] = byte(V >> 24)` .., and V. When V is a parameter of that function (setLength(length)), the patch
+// sites are the calls of it and the value is the argument; otherwise (stores written out in finish) the site is the
+// store of the most significant byte and the value is V itself.
+type lenPatch struct {
+	Fn     *FuncInfo
+	V      *types.Var
+	Store  ast.Stmt
+	Callee bool // V is a parameter: sites are calls to Fn
+}
+
+type lenSite struct {
+	Node ast.Node // the call, or the first store
+	Arg  ast.Expr // the length expression at the site
+}
+
+func (p *Program) lengthPatch() *lenPatch {
+	var out *lenPatch
+	bufField := p.Field("framer", "buf")
+	for _, fi := range p.SortedFuncs() {
+		if fi.Decl.Body == nil || fi.Pkg != p.Root || out != nil {
+			continue
+		}
+		info := fi.Pkg.TypesInfo
+		ast.Inspect(fi.Decl.Body, func(x ast.Node) bool {
+			as, ok := x.(*ast.AssignStmt)
+			if !ok || out != nil || len(as.Lhs) != 1 || len(as.Rhs) != 1 || as.Tok != token.ASSIGN {
+				return true
+			}
+			ix, ok := ast.Unparen(as.Lhs[0]).(*ast.IndexExpr)
+			if !ok || fieldOf(info, ix.X) == nil || fieldOf(info, ix.X) != bufField {
+				return true
+			}
+			sh, ok := stripAllConv(info, as.Rhs[0]).(*ast.BinaryExpr)
+			if !ok || sh.Op != token.SHR {
+				return true
+			}
+			if k, isK := constInt(info, sh.Y); !isK || k != 24 {
+				return true
+			}
+			id, ok := ast.Unparen(sh.X).(*ast.Ident)
+			if !ok {
+				return true
+			}
+			v, _ := info.Uses[id].(*types.Var)
+			if v == nil {
+				return true
+			}
+			lp := &lenPatch{Fn: fi, V: v, Store: as}
+			if fi.Obj != nil {
+				sig := fi.Obj.Type().(*types.Signature)
+				for i := 0; i < sig.Params().Len(); i++ {
+					if sig.Params().At(i) == v {
+						lp.Callee = true
+					}
+				}
+			}
+			out = lp
+			return true
+		})
+	}
+	return out
+}
+
+// sites: the places in fn where the length is patched.
+func (lp *lenPatch) sites(p *Program, fn *FuncInfo) []lenSite {
+	var out []lenSite
+	if lp == nil {
+		return nil
+	}
+	if lp.Callee {
+		for _, c := range callsIn(fn.Decl.Body) {
+			if f := calleeOf(fn.Pkg.TypesInfo, c); f != nil && p.FuncOf(f) == lp.Fn && len(c.Args) == 1 {
+				out = append(out, lenSite{c, c.Args[0]})
+			}
+		}
+		return out
+	}
+	if fn == lp.Fn {
+		id := ast.NewIdent(lp.V.Name())
+		sh := stripAllConv(fn.Pkg.TypesInfo, lp.Store.(*ast.AssignStmt).Rhs[0]).(*ast.BinaryExpr)
+		if x, ok := ast.Unparen(sh.X).(*ast.Ident); ok {
+			id = x
+		}
+		out = append(out, lenSite{lp.Store, id})
+	}
+	return out
+}
+
+func (lp *lenPatch) isSiteNode(p *Program, info *types.Info, n ast.Node) bool {
+	if lp == nil {
+		return false
+	}
+	if lp.Callee {
+		for _, c := range callsIn(n) {
+			if f := calleeOf(info, c); f != nil && p.FuncOf(f) == lp.Fn {
+				return true
+			}
+		}
+		return false
+	}
+	return n == ast.Node(lp.Store)
+}
+
 // finishLength: the length patched into the header is the number of body bytes of the buffer as it is when the
 // length is written: `len(f.buf) - f.headSize` evaluated at the call, or a local that was computed that way after
 // the last replacement of f.buf (a value computed before the body is compressed announces the uncompressed size).
@@ -620,17 +723,16 @@ func finishLength(p *Program, r *Report) {
 		})
 	}
 	n := 0
+	lp := p.lengthPatch()
 	for _, fn := range units {
 		info := fn.Pkg.TypesInfo
-		for _, c := range callsIn(fn.Decl.Body) {
-			if !isCallTo(info, c, "(*framer).setLength") || len(c.Args) != 1 {
-				continue
-			}
+		for _, site := range lp.sites(p, fn) {
+			c := site.Node
 			n++
 			name := fn.Name + ": the patched length counts the bytes that follow the header when it is written"
-			id, isId := ast.Unparen(c.Args[0]).(*ast.Ident)
+			id, isId := ast.Unparen(site.Arg).(*ast.Ident)
 			if !isId {
-				got := p.canonText(fn, c.Args[0])
+				got := p.canonText(fn, site.Arg)
 				r.Check(got == "len(f.buf)-f.headSize", c, name, "len(f.buf) - f.headSize evaluated at the call", "the patched length is "+got+", not the number of bytes after the header")
 				continue
 			}
